@@ -32,6 +32,13 @@ def configs(tier):
                "warm": [["t", "u"], ["g"]], "warm_connect": connect, "script": [["calls", mix]], "menu": MENU,
                "horizon_s": 200}
         out.append(cfg)
+    # the connection was lost while idle (e.g. dropped by an earlier disconnect-on-timeout): a prompt broker must
+    # still be reached by the next request within the bound
+    for timeout, dot, mix in itertools.product([1000], [False, True], MIXES[:3]):
+        out.append({"cluster": CLUSTER, "discovery": False, "timeout_ms": timeout, "disconnect_on_timeout": dot,
+                    "warm": [["t", "u"], ["g"]], "warm_connect": True,
+                    "script": [["cluster", "drop_conns", 1], ["cluster", "drop_conns", 2], ["calls", mix]],
+                    "menu": MENU, "horizon_s": 200})
     return out
 
 
